@@ -87,7 +87,7 @@ CHECKS = {
             E1_NOTE + " Time does not pass while a transaction has a PDU ready for its transport (a local transport stalled for a whole timer period is not modelled).", "DESIGN.md section 4 C17"),
     "C09": ("seq-mc", "model_checking",
             "explicit-state BFS to closure over the real Segments::merge with a bit-set reference model, all queries evaluated in every state",
-            "Every merge sequence over an M-position universe (M=9 quick, 14 thorough) at three bases (0, straddling 2^32, ending at 2^64-1) is explored to closure (all 2^M held-sets per base); in every reached state all is_complete(n) and all gaps(s,e) windows are compared with a bit set, and every merge return with the growth of the union. Exhaustive within the universe, which is the right level for a pure data structure whose defects are about range shapes, not magnitudes.",
+            "Every merge sequence over an M-position universe (M=9 quick, 14 thorough) at three bases (0, straddling 2^32, ending at 2^64-1) is explored to closure (all 2^M held-sets per base); in every reached state all is_complete(n) and all gaps(s,e) windows are compared with a bit set, and every merge return with the growth of the union. Exhaustive within the universe, which is the right level for a pure data structure whose defects are about range shapes, not magnitudes. Protocol level (txn-mc): the real receive transaction under loss/overtaking plus injected file data inside, across and beyond the announced file size; in every state of its receiving phase its segment list and byte count must equal the union of the data handed to it, a complete delivery is reported only with every byte of [0,n) held, and a complete file is recognised at once.",
             "Assumes translation invariance between the explored bases and that segments longer than M behave like those of length <= M. Hook H2 re-exports the crate-private type.",
             "DESIGN.md section 4 C09"),
 }
@@ -126,7 +126,7 @@ def main():
         "engines": [
             {"name": "seq-mc", "path": "/verif/harness/src/seq_*.rs", "serves_properties": ["C09", "C13", "C17"],
              "kind_free_text": "explicit-state BFS over the real sequential component, reference model in lock step"},
-            {"name": "txn-mc", "path": "/verif/harness/src/world.rs", "serves_properties": ["C01", "C02", "C03", "C04", "C07", "C08", "C10", "C13", "C17", "C18", "C19", "C20"],
+            {"name": "txn-mc", "path": "/verif/harness/src/world.rs", "serves_properties": ["C01", "C02", "C03", "C04", "C07", "C08", "C09", "C10", "C13", "C17", "C18", "C19", "C20"],
              "kind_free_text": "explicit-state BFS whose transitions call the real SendTransaction/RecvTransaction handlers on a paused tokio clock, adversarial link, per-property monitors"},
             {"name": "daemon-dbx", "path": "/verif/harness/src/daemon_world.rs", "serves_properties": ["C11", "C03", "C06"],
              "kind_free_text": "deviation-bounded exhaustive scheduling of real Daemon tasks under a controlled transport and paused clock; twin conformance against txn-mc"},
